@@ -18,7 +18,9 @@ mentions, of the globals, only the clock, which no thread step changes and which
 
 Main results: `gi_init`, `gi_step`, `gi_reach` (invariant); `lp_result`, `lp_setStore` (linearization points
 return the spec's answer and advance the ghost abstract state by the spec step); `abs_frame` (no other step
-changes the abstract state); `get_load`, `get_hindsight` (hindsight for the `Get` family); `gd_compute`,
+changes the abstract state); `get_load`, `get_hindsight` (hindsight for the `Get` family); `get_ttl_clock`,
+`getWithTTL_second_clock` (`GetWithTTL` reads the clock a second time: value and flag are those of the hindsight /
+linearization point, the lifetime is that binding's, against the later clock); `gd_compute`,
 `de_compute`, `erased_step`, `ledger_only_removed`, `never_removes_live` (callbacks, C06); `no_step_blocks`
 (C13 at cache level); `reach_tstep` (the step-level theorems apply to every step of every run); `fi_reach`,
 `fired_prefix`, `fired_eq_erased_at_ret`, `ledger_fired_coupled` (C06: per call, what fired is exactly what was
@@ -60,7 +62,7 @@ def opCls : COp K V → Cls
 def pcCls : Pc → Option Cls
   | .idle | .ret => none
   | .setReadDflt | .setReadClock | .setStore => some .set
-  | .getLoad | .getChkClock | .getCompute => some .get
+  | .getLoad | .getChkClock | .getCompute | .getTTLClock => some .get
   | .rmw => some .rmw
   | .gdCompute | .gdReadCb | .gdFire => some .gd
   | .deReadCb | .deReadClock | .deVisit | .deCompute | .deFire => some .de
@@ -85,23 +87,31 @@ structure LI (now : Int) (l : L K V) : Prop where
   cur : l.pc = .deCompute → l.cur.isSome = true
   rem : (l.pc = .gdReadCb ∨ l.pc = .gdFire) → ∀ k, opKey l = some k → ∃ i, l.removed = some i ∧ (k, i.v) ∈ l.erased
   que : ∀ p ∈ l.queue, p ∈ l.erased
+  cmp : l.pc = .getCompute → l.nowAtLoad ≤ now
+  /-- `GetWithTTL` about to read the clock a second time: it holds the item `i` it found (`loaded`), which has an
+  expiration instant, and `i` was unexpired at the clock value `t0` the call read when it found it
+  (`nowAtLoad ≤ t0 ≤ now`: the clock check of the hit path, or the double-checked `Compute`) -/
+  ttl : l.pc = .getTTLClock → ∃ i k t0, l.loaded = some i ∧ l.op = some (.getWithTTL k) ∧ 0 < i.e ∧
+      l.nowAtLoad ≤ t0 ∧ t0 ≤ now ∧ TTL.expired i.e t0 = false
 
 theorem li_init (now : Int) : LI now (L.init : L K V) := by
-  refine ⟨?_, ?_, ?_, ?_, ?_, ?_, ?_, ?_⟩ <;> simp [L.init, pcCls, dePass]
+  refine ⟨?_, ?_, ?_, ?_, ?_, ?_, ?_, ?_, ?_, ?_⟩ <;> simp [L.init, pcCls, dePass]
 
 theorem li_mono (now now' : Int) (l : L K V) (h : now ≤ now') (hl : LI now l) : LI now' l := by
-  obtain ⟨h1, h2, h3, h4, h5, h6, h7, h8⟩ := hl
-  refine ⟨h1, h2, ?_, ?_, ?_, h6, h7, h8⟩
+  obtain ⟨h1, h2, h3, h4, h5, h6, h7, h8, h9, h10⟩ := hl
+  refine ⟨h1, h2, ?_, ?_, ?_, h6, h7, h8, ?_, ?_⟩
   · intro hp; obtain ⟨t0, a, b, c⟩ := h3 hp; exact ⟨t0, a, by omega, c⟩
   · intro hp; obtain ⟨i, a, b, c⟩ := h4 hp; exact ⟨i, a, by omega, c⟩
   · intro hp; have := h5 hp; omega
+  · intro hp; have := h9 hp; omega
+  · intro hp; obtain ⟨i, k, t0, a, b, c, d, e, f⟩ := h10 hp; exact ⟨i, k, t0, a, b, c, d, by omega, f⟩
 
 theorem li_startOp (now : Int) (l : L K V) (op : COp K V) : LI now (startOp l op) := by
   cases op
   case set k v d =>
     by_cases hd : d = Gen.DefaultExpiration <;>
-      (refine ⟨?_, ?_, ?_, ?_, ?_, ?_, ?_, ?_⟩ <;> simp [startOp, pcCls, dePass, opCls, hd])
-  all_goals (refine ⟨?_, ?_, ?_, ?_, ?_, ?_, ?_, ?_⟩ <;> simp [startOp, pcCls, dePass, opCls])
+      (refine ⟨?_, ?_, ?_, ?_, ?_, ?_, ?_, ?_, ?_, ?_⟩ <;> simp [startOp, pcCls, dePass, opCls, hd])
+  all_goals (refine ⟨?_, ?_, ?_, ?_, ?_, ?_, ?_, ?_, ?_, ?_⟩ <;> simp [startOp, pcCls, dePass, opCls])
 
 theorem tstep_now (t : Tid) (g : G K V) (l : L K V) (c : Choice K V) (g' : G K V) (l' : L K V)
     (hs : tstep t g l c = some (g', l')) : g'.now = g.now := by
@@ -114,7 +124,7 @@ macro "li_auto " hs:ident : tactic =>
   `(tactic| ((repeat' split at $hs:ident) <;>
     simp only [Option.some.injEq, reduceCtorEq, Prod.mk.injEq] at $hs:ident <;>
     rcases $hs:ident with ⟨hg', hl'⟩ <;> subst hg' <;> subst hl' <;>
-    (refine ⟨?_, ?_, ?_, ?_, ?_, ?_, ?_, ?_⟩ <;> simp_all [pcCls, dePass, opKey])))
+    (refine ⟨?_, ?_, ?_, ?_, ?_, ?_, ?_, ?_, ?_, ?_⟩ <;> simp_all [pcCls, dePass, opKey])))
 
 
 /-! ## The local invariant is preserved by the thread's own steps -/
@@ -133,10 +143,70 @@ theorem load_false {α : Type} [Inhabited α] (m : AMap K α) (k : K) (i : α) (
   · simp at h
   · assumption
 
+theorem compute_congr {α : Type} [Inhabited α] (m : AMap K α) (k : K) (f f' : Option α → α × Bool)
+    (h : ∀ o, f o = f' o) : m.compute k f = m.compute k f' := by
+  have : f = f' := funext h
+  rw [this]
+
+/-- the closure `get` passes to `Compute` (double check, or delete) -/
+def getFn (s : Cache.St K V) : Option (Item V) → Item V × Bool := fun o =>
+  match o with
+  | some i' => if !Cache.expired s i' then (i', false) else (default, true)
+  | none => (default, true)
+
+theorem getFn_spec (s : Cache.St K V) (m : AMap K (Item V)) (k : K) :
+    m.compute k (getFn s) =
+      match m.get k with
+      | none => (m, (default, false))
+      | some i => if TTL.expired i.e s.now then (m.erase k, (i, false)) else (m.set k i, (i, true)) := by
+  cases hg : m.get k with
+  | none => simp [AMap.compute, hg, getFn]
+  | some i =>
+    by_cases he : TTL.expired i.e s.now = true <;> simp [AMap.compute, hg, getFn, expired_eq, he]
+
+/-- the two outcomes of `afterHit`: the call returns with `hitResult`, or (`GetWithTTL`, entry with an expiration
+instant) it goes on to read the clock a second time, holding the item found -/
+theorem afterHit_cases (l : L K V) (op : COp K V) (i : Item V) (now : Int) :
+    ((¬ ∃ k, op = .getWithTTL k ∧ 0 < i.e) ∧
+        afterHit l op i now = { l with pc := .ret, result := some (hitResult op i now) }) ∨
+    (∃ k, op = .getWithTTL k ∧ 0 < i.e ∧ afterHit l op i now = { l with pc := .getTTLClock, loaded := some i }) := by
+  by_cases h0 : 0 < i.e <;> cases op <;> simp [afterHit, h0]
+
+theorem afterHit_erased (l : L K V) (op : COp K V) (i : Item V) (now : Int) : (afterHit l op i now).erased = l.erased := by
+  rcases afterHit_cases l op i now with ⟨_, h⟩ | ⟨_, _, _, h⟩ <;> rw [h]
+theorem afterHit_fired (l : L K V) (op : COp K V) (i : Item V) (now : Int) : (afterHit l op i now).fired = l.fired := by
+  rcases afterHit_cases l op i now with ⟨_, h⟩ | ⟨_, _, _, h⟩ <;> rw [h]
+
+/-- `get`'s double-checked `Compute`, exactly: a fresh item stays in place and the call goes on as after a hit
+(`afterHit`); an expired item is deleted, and then (or when the key is absent) the call returns a miss -/
+theorem getCompute_step (t : Tid) (g : G K V) (l : L K V) (c : Choice K V) (g' : G K V) (l' : L K V)
+    (hpc : l.pc = .getCompute) (hs : tstep t g l c = some (g', l')) :
+    ∃ k op, opKey l = some k ∧ l.op = some op ∧
+      g' = { g with items := (g.items.compute k (getFn (view g))).1 } ∧
+      match g.items.get k with
+      | none => g'.items = g.items ∧ l' = { l with pc := .ret, result := some (missResult op) }
+      | some i =>
+        if TTL.expired i.e g.now then
+          g'.items = g.items.erase k ∧ l' = { l with pc := .ret, result := some (missResult op) }
+        else g'.items = g.items.set k i ∧ l' = afterHit l op i g.now := by
+  simp only [tstep, hpc] at hs
+  split at hs
+  · rename_i k op hk ho
+    rw [compute_congr (f' := getFn (view g))] at hs
+    case h => intro o; cases o <;> rfl
+    simp only [Option.some.injEq, Prod.mk.injEq] at hs
+    obtain ⟨rfl, rfl⟩ := hs
+    refine ⟨k, op, hk, ho, rfl, ?_⟩
+    rw [getFn_spec]
+    cases hgk : g.items.get k with
+    | none => simp
+    | some i => by_cases he : TTL.expired i.e g.now = true <;> simp [he, view]
+  · cases hs
+
 theorem li_self_setReadDflt (t : Tid) (g : G K V) (l : L K V) (c : Choice K V) (g' : G K V) (l' : L K V)
     (hg : GI g) (hl : LI g.now l) (hpc : l.pc = .setReadDflt) (hs : tstep t g l c = some (g', l')) : LI g.now l' := by
   have hnow := hg.wf.now0
-  obtain ⟨h1, h2, h3, h4, h5, h6, h7, h8⟩ := hl
+  obtain ⟨h1, h2, h3, h4, h5, h6, h7, h8, h9, h10⟩ := hl
   simp only [tstep, hpc] at hs
   li_auto hs
   intro k v d ho hd
@@ -145,11 +215,11 @@ theorem li_self_setReadDflt (t : Tid) (g : G K V) (l : L K V) (c : Choice K V) (
 theorem li_self_setReadClock (t : Tid) (g : G K V) (l : L K V) (c : Choice K V) (g' : G K V) (l' : L K V)
     (hg : GI g) (hl : LI g.now l) (hpc : l.pc = .setReadClock) (hs : tstep t g l c = some (g', l')) : LI g.now l' := by
   have hnow := hg.wf.now0
-  obtain ⟨h1, h2, h3, h4, h5, h6, h7, h8⟩ := hl
+  obtain ⟨h1, h2, h3, h4, h5, h6, h7, h8, h9, h10⟩ := hl
   simp only [tstep, hpc] at hs
   simp only [Option.some.injEq, Prod.mk.injEq] at hs
   obtain ⟨rfl, rfl⟩ := hs
-  refine ⟨?_, ?_, ?_, ?_, ?_, ?_, ?_, ?_⟩ <;> simp [pcCls, dePass, opKey]
+  refine ⟨?_, ?_, ?_, ?_, ?_, ?_, ?_, ?_, ?_, ?_⟩ <;> simp [pcCls, dePass, opKey]
   · exact h1 _ (by simp [hpc, pcCls])
   · exact fun k v d ho => (h2 k v d ho).2 (Or.inl hpc)
   · exact ⟨g.now, hnow, Int.le_refl _, rfl⟩
@@ -158,14 +228,14 @@ theorem li_self_setReadClock (t : Tid) (g : G K V) (l : L K V) (c : Choice K V) 
 theorem li_self_setStore (t : Tid) (g : G K V) (l : L K V) (c : Choice K V) (g' : G K V) (l' : L K V)
     (hg : GI g) (hl : LI g.now l) (hpc : l.pc = .setStore) (hs : tstep t g l c = some (g', l')) : LI g.now l' := by
   have hnow := hg.wf.now0
-  obtain ⟨h1, h2, h3, h4, h5, h6, h7, h8⟩ := hl
+  obtain ⟨h1, h2, h3, h4, h5, h6, h7, h8, h9, h10⟩ := hl
   simp only [tstep, hpc] at hs
   li_auto hs
 
 theorem li_self_getLoad (t : Tid) (g : G K V) (l : L K V) (c : Choice K V) (g' : G K V) (l' : L K V)
     (hg : GI g) (hl : LI g.now l) (hpc : l.pc = .getLoad) (hs : tstep t g l c = some (g', l')) : LI g.now l' := by
   have hnow := hg.wf.now0
-  obtain ⟨h1, h2, h3, h4, h5, h6, h7, h8⟩ := hl
+  obtain ⟨h1, h2, h3, h4, h5, h6, h7, h8, h9, h10⟩ := hl
   simp only [tstep, hpc] at hs
   li_auto hs
   rename_i k op x i hk ho hld
@@ -179,70 +249,104 @@ theorem li_self_getLoad (t : Tid) (g : G K V) (l : L K V) (c : Choice K V) (g' :
 theorem li_self_getChkClock (t : Tid) (g : G K V) (l : L K V) (c : Choice K V) (g' : G K V) (l' : L K V)
     (hg : GI g) (hl : LI g.now l) (hpc : l.pc = .getChkClock) (hs : tstep t g l c = some (g', l')) : LI g.now l' := by
   have hnow := hg.wf.now0
-  obtain ⟨h1, h2, h3, h4, h5, h6, h7, h8⟩ := hl
-  simp only [tstep, hpc] at hs
-  li_auto hs
+  obtain ⟨h1, h2, h3, h4, h5, h6, h7, h8, h9, h10⟩ := hl
+  obtain ⟨i, hi, hn, ha⟩ := h4 hpc
+  obtain ⟨op, ho, hc⟩ := h1 _ (by rw [hpc]; rfl)
+  simp only [tstep, hpc, hi, ho, item_expired_eq] at hs
+  split at hs
+  · rename_i he
+    simp only [Option.some.injEq, Prod.mk.injEq] at hs
+    obtain ⟨rfl, rfl⟩ := hs
+    rcases afterHit_cases l op i g.now with ⟨_, h⟩ | ⟨k, rfl, hpos, h⟩ <;> rw [h]
+    · refine ⟨?_, ?_, ?_, ?_, ?_, ?_, ?_, ?_, ?_, ?_⟩ <;> simp_all [pcCls, dePass, opKey]
+    · refine ⟨?_, ?_, ?_, ?_, ?_, ?_, ?_, ?_, ?_, ?_⟩ <;> simp_all [pcCls, dePass, opKey, opCls]
+      exact ⟨g.now, hn, Int.le_refl _, he⟩
+  · simp only [Option.some.injEq, Prod.mk.injEq] at hs
+    obtain ⟨rfl, rfl⟩ := hs
+    refine ⟨?_, ?_, ?_, ?_, ?_, ?_, ?_, ?_, ?_, ?_⟩ <;> simp_all [pcCls, dePass, opKey]
 
 theorem li_self_getCompute (t : Tid) (g : G K V) (l : L K V) (c : Choice K V) (g' : G K V) (l' : L K V)
     (hg : GI g) (hl : LI g.now l) (hpc : l.pc = .getCompute) (hs : tstep t g l c = some (g', l')) : LI g.now l' := by
   have hnow := hg.wf.now0
-  obtain ⟨h1, h2, h3, h4, h5, h6, h7, h8⟩ := hl
+  obtain ⟨h1, h2, h3, h4, h5, h6, h7, h8, h9, h10⟩ := hl
+  have hn := h9 hpc
+  obtain ⟨k, op, hk, ho, _, hm⟩ := getCompute_step t g l c g' l' hpc hs
+  have hmiss : LI g.now { l with pc := .ret, result := some (missResult op) } := by
+    refine ⟨?_, ?_, ?_, ?_, ?_, ?_, ?_, ?_, ?_, ?_⟩ <;> simp_all [pcCls, dePass, opKey]
+  cases hgk : g.items.get k with
+  | none => rw [hgk] at hm; rw [hm.2]; exact hmiss
+  | some i =>
+    rw [hgk] at hm
+    by_cases he : TTL.expired i.e g.now = true
+    · simp only [he, if_true] at hm; rw [hm.2]; exact hmiss
+    · simp only [he, Bool.false_eq_true, if_false] at hm
+      rw [hm.2]
+      rcases afterHit_cases l op i g.now with ⟨_, h⟩ | ⟨k', rfl, hpos, h⟩ <;> rw [h]
+      · refine ⟨?_, ?_, ?_, ?_, ?_, ?_, ?_, ?_, ?_, ?_⟩ <;> simp_all [pcCls, dePass, opKey]
+      · refine ⟨?_, ?_, ?_, ?_, ?_, ?_, ?_, ?_, ?_, ?_⟩ <;> simp_all [pcCls, dePass, opKey, opCls]
+        exact ⟨g.now, hn, Int.le_refl _, by simpa using he⟩
+
+theorem li_self_getTTLClock (t : Tid) (g : G K V) (l : L K V) (c : Choice K V) (g' : G K V) (l' : L K V)
+    (hg : GI g) (hl : LI g.now l) (hpc : l.pc = .getTTLClock) (hs : tstep t g l c = some (g', l')) : LI g.now l' := by
+  have hnow := hg.wf.now0
+  obtain ⟨h1, h2, h3, h4, h5, h6, h7, h8, h9, h10⟩ := hl
   simp only [tstep, hpc] at hs
   li_auto hs
 
 theorem li_self_rmw (t : Tid) (g : G K V) (l : L K V) (c : Choice K V) (g' : G K V) (l' : L K V)
     (hg : GI g) (hl : LI g.now l) (hpc : l.pc = .rmw) (hs : tstep t g l c = some (g', l')) : LI g.now l' := by
   have hnow := hg.wf.now0
-  obtain ⟨h1, h2, h3, h4, h5, h6, h7, h8⟩ := hl
+  obtain ⟨h1, h2, h3, h4, h5, h6, h7, h8, h9, h10⟩ := hl
   simp only [tstep, hpc] at hs
   li_auto hs
 
 theorem li_self_gdCompute (t : Tid) (g : G K V) (l : L K V) (c : Choice K V) (g' : G K V) (l' : L K V)
     (hg : GI g) (hl : LI g.now l) (hpc : l.pc = .gdCompute) (hs : tstep t g l c = some (g', l')) : LI g.now l' := by
   have hnow := hg.wf.now0
-  obtain ⟨h1, h2, h3, h4, h5, h6, h7, h8⟩ := hl
+  obtain ⟨h1, h2, h3, h4, h5, h6, h7, h8, h9, h10⟩ := hl
+  clear h3 h4 h9 h10
   simp only [tstep, hpc] at hs
   li_auto hs
 
 theorem li_self_gdReadCb (t : Tid) (g : G K V) (l : L K V) (c : Choice K V) (g' : G K V) (l' : L K V)
     (hg : GI g) (hl : LI g.now l) (hpc : l.pc = .gdReadCb) (hs : tstep t g l c = some (g', l')) : LI g.now l' := by
   have hnow := hg.wf.now0
-  obtain ⟨h1, h2, h3, h4, h5, h6, h7, h8⟩ := hl
+  obtain ⟨h1, h2, h3, h4, h5, h6, h7, h8, h9, h10⟩ := hl
   simp only [tstep, hpc] at hs
   li_auto hs
 
 theorem li_self_gdFire (t : Tid) (g : G K V) (l : L K V) (c : Choice K V) (g' : G K V) (l' : L K V)
     (hg : GI g) (hl : LI g.now l) (hpc : l.pc = .gdFire) (hs : tstep t g l c = some (g', l')) : LI g.now l' := by
   have hnow := hg.wf.now0
-  obtain ⟨h1, h2, h3, h4, h5, h6, h7, h8⟩ := hl
+  obtain ⟨h1, h2, h3, h4, h5, h6, h7, h8, h9, h10⟩ := hl
   simp only [tstep, hpc] at hs
   li_auto hs
 
 theorem li_self_deReadCb (t : Tid) (g : G K V) (l : L K V) (c : Choice K V) (g' : G K V) (l' : L K V)
     (hg : GI g) (hl : LI g.now l) (hpc : l.pc = .deReadCb) (hs : tstep t g l c = some (g', l')) : LI g.now l' := by
   have hnow := hg.wf.now0
-  obtain ⟨h1, h2, h3, h4, h5, h6, h7, h8⟩ := hl
+  obtain ⟨h1, h2, h3, h4, h5, h6, h7, h8, h9, h10⟩ := hl
   simp only [tstep, hpc] at hs
   li_auto hs
 
 theorem li_self_deReadClock (t : Tid) (g : G K V) (l : L K V) (c : Choice K V) (g' : G K V) (l' : L K V)
     (hg : GI g) (hl : LI g.now l) (hpc : l.pc = .deReadClock) (hs : tstep t g l c = some (g', l')) : LI g.now l' := by
   have hnow := hg.wf.now0
-  obtain ⟨h1, h2, h3, h4, h5, h6, h7, h8⟩ := hl
+  obtain ⟨h1, h2, h3, h4, h5, h6, h7, h8, h9, h10⟩ := hl
   simp only [tstep, hpc] at hs
   li_auto hs
 
 theorem li_self_deVisit (t : Tid) (g : G K V) (l : L K V) (c : Choice K V) (g' : G K V) (l' : L K V)
     (hg : GI g) (hl : LI g.now l) (hpc : l.pc = .deVisit) (hs : tstep t g l c = some (g', l')) : LI g.now l' := by
   have hnow := hg.wf.now0
-  obtain ⟨h1, h2, h3, h4, h5, h6, h7, h8⟩ := hl
+  obtain ⟨h1, h2, h3, h4, h5, h6, h7, h8, h9, h10⟩ := hl
   simp only [tstep, hpc] at hs
   li_auto hs
 
 theorem li_self_deCompute (t : Tid) (g : G K V) (l : L K V) (c : Choice K V) (g' : G K V) (l' : L K V)
     (hg : GI g) (hl : LI g.now l) (hpc : l.pc = .deCompute) (hs : tstep t g l c = some (g', l')) : LI g.now l' := by
   have hnow := hg.wf.now0
-  obtain ⟨h1, h2, h3, h4, h5, h6, h7, h8⟩ := hl
+  obtain ⟨h1, h2, h3, h4, h5, h6, h7, h8, h9, h10⟩ := hl
   simp only [tstep, hpc] at hs
   li_auto hs
   intro a b h
@@ -253,42 +357,42 @@ theorem li_self_deCompute (t : Tid) (g : G K V) (l : L K V) (c : Choice K V) (g'
 theorem li_self_deFire (t : Tid) (g : G K V) (l : L K V) (c : Choice K V) (g' : G K V) (l' : L K V)
     (hg : GI g) (hl : LI g.now l) (hpc : l.pc = .deFire) (hs : tstep t g l c = some (g', l')) : LI g.now l' := by
   have hnow := hg.wf.now0
-  obtain ⟨h1, h2, h3, h4, h5, h6, h7, h8⟩ := hl
+  obtain ⟨h1, h2, h3, h4, h5, h6, h7, h8, h9, h10⟩ := hl
   simp only [tstep, hpc] at hs
   li_auto hs
 
 theorem li_self_clClear (t : Tid) (g : G K V) (l : L K V) (c : Choice K V) (g' : G K V) (l' : L K V)
     (hg : GI g) (hl : LI g.now l) (hpc : l.pc = .clClear) (hs : tstep t g l c = some (g', l')) : LI g.now l' := by
   have hnow := hg.wf.now0
-  obtain ⟨h1, h2, h3, h4, h5, h6, h7, h8⟩ := hl
+  obtain ⟨h1, h2, h3, h4, h5, h6, h7, h8, h9, h10⟩ := hl
   simp only [tstep, hpc] at hs
   li_auto hs
 
 theorem li_self_cntSize (t : Tid) (g : G K V) (l : L K V) (c : Choice K V) (g' : G K V) (l' : L K V)
     (hg : GI g) (hl : LI g.now l) (hpc : l.pc = .cntSize) (hs : tstep t g l c = some (g', l')) : LI g.now l' := by
   have hnow := hg.wf.now0
-  obtain ⟨h1, h2, h3, h4, h5, h6, h7, h8⟩ := hl
+  obtain ⟨h1, h2, h3, h4, h5, h6, h7, h8, h9, h10⟩ := hl
   simp only [tstep, hpc] at hs
   li_auto hs
 
 theorem li_self_sdStore (t : Tid) (g : G K V) (l : L K V) (c : Choice K V) (g' : G K V) (l' : L K V)
     (hg : GI g) (hl : LI g.now l) (hpc : l.pc = .sdStore) (hs : tstep t g l c = some (g', l')) : LI g.now l' := by
   have hnow := hg.wf.now0
-  obtain ⟨h1, h2, h3, h4, h5, h6, h7, h8⟩ := hl
+  obtain ⟨h1, h2, h3, h4, h5, h6, h7, h8, h9, h10⟩ := hl
   simp only [tstep, hpc] at hs
   li_auto hs
 
 theorem li_self_scStore (t : Tid) (g : G K V) (l : L K V) (c : Choice K V) (g' : G K V) (l' : L K V)
     (hg : GI g) (hl : LI g.now l) (hpc : l.pc = .scStore) (hs : tstep t g l c = some (g', l')) : LI g.now l' := by
   have hnow := hg.wf.now0
-  obtain ⟨h1, h2, h3, h4, h5, h6, h7, h8⟩ := hl
+  obtain ⟨h1, h2, h3, h4, h5, h6, h7, h8, h9, h10⟩ := hl
   simp only [tstep, hpc] at hs
   li_auto hs
 
 theorem li_self_ret (t : Tid) (g : G K V) (l : L K V) (c : Choice K V) (g' : G K V) (l' : L K V)
     (hg : GI g) (hl : LI g.now l) (hpc : l.pc = .ret) (hs : tstep t g l c = some (g', l')) : LI g.now l' := by
   have hnow := hg.wf.now0
-  obtain ⟨h1, h2, h3, h4, h5, h6, h7, h8⟩ := hl
+  obtain ⟨h1, h2, h3, h4, h5, h6, h7, h8, h9, h10⟩ := hl
   simp only [tstep, hpc] at hs
   li_auto hs
 
@@ -309,6 +413,7 @@ theorem li_self (t : Tid) (g : G K V) (l : L K V) (c : Choice K V) (g' : G K V) 
   case getLoad => exact li_self_getLoad t g l c g' l' hg hl hpc hs
   case getChkClock => exact li_self_getChkClock t g l c g' l' hg hl hpc hs
   case getCompute => exact li_self_getCompute t g l c g' l' hg hl hpc hs
+  case getTTLClock => exact li_self_getTTLClock t g l c g' l' hg hl hpc hs
   case rmw => exact li_self_rmw t g l c g' l' hg hl hpc hs
   case gdCompute => exact li_self_gdCompute t g l c g' l' hg hl hpc hs
   case gdReadCb => exact li_self_gdReadCb t g l c g' l' hg hl hpc hs
@@ -339,22 +444,6 @@ theorem tstep_local (t : Tid) (g : G K V) (l : L K V) (c : Choice K V) (g' : G K
     (repeat' split at hs) <;>
     simp only [Option.some.injEq, reduceCtorEq, Prod.mk.injEq] at hs <;>
     obtain ⟨rfl, rfl⟩ := hs <;> rfl
-
-/-- the closure `get` passes to `Compute` (double check, or delete) -/
-def getFn (s : Cache.St K V) : Option (Item V) → Item V × Bool := fun o =>
-  match o with
-  | some i' => if !Cache.expired s i' then (i', false) else (default, true)
-  | none => (default, true)
-
-theorem getFn_spec (s : Cache.St K V) (m : AMap K (Item V)) (k : K) :
-    m.compute k (getFn s) =
-      match m.get k with
-      | none => (m, (default, false))
-      | some i => if TTL.expired i.e s.now then (m.erase k, (i, false)) else (m.set k i, (i, true)) := by
-  cases hg : m.get k with
-  | none => simp [AMap.compute, hg, getFn]
-  | some i =>
-    by_cases he : TTL.expired i.e s.now = true <;> simp [AMap.compute, hg, getFn, expired_eq, he]
 
 theorem sim_getFn (s : Cache.St K V) (a : TTL.St K V) (h : Sim s a) (k : K) :
     Sim { s with items := (s.items.compute k (getFn s)).1 } a := by
@@ -603,27 +692,66 @@ theorem abs_frame (t : Tid) (g : G K V) (l : L K V) (c : Choice K V) (g' : G K V
     simp only [Option.some.injEq, reduceCtorEq, Prod.mk.injEq] at hs <;>
     obtain ⟨rfl, rfl⟩ := hs <;> rfl
 
-/-- what a linearization point (other than `Set`'s `Store`) must establish: the result assigned is the spec's
-answer on the ghost abstract state, and the ghost abstract state advances by the spec step -/
+/-- the only steps that enter `getTTLClock` are the clock check of the hit path and the double-checked `Compute` -/
+theorem into_getTTLClock (t : Tid) (g : G K V) (l : L K V) (c : Choice K V) (g' : G K V) (l' : L K V)
+    (hs : tstep t g l c = some (g', l')) (h : l'.pc = .getTTLClock) : l.pc = .getChkClock ∨ l.pc = .getCompute := by
+  cases hpc : l.pc
+  case getChkClock => exact Or.inl rfl
+  case getCompute => exact Or.inr rfl
+  case idle =>
+    exfalso
+    simp only [tstep, hpc] at hs
+    split at hs
+    · simp only [Option.some.injEq, Prod.mk.injEq] at hs
+      obtain ⟨rfl, rfl⟩ := hs
+      rename_i op _
+      cases op <;> simp only [startOp, reduceCtorEq] at h
+      split at h <;> cases h
+    · cases hs
+  all_goals
+    (exfalso; simp only [tstep, hpc] at hs
+     (repeat' split at hs) <;>
+     simp only [Option.some.injEq, reduceCtorEq, Prod.mk.injEq] at hs <;>
+     obtain ⟨rfl, rfl⟩ := hs <;> simp [hpc] at h)
+
+theorem not_into_getTTLClock (t : Tid) (g : G K V) (l : L K V) (c : Choice K V) (g' : G K V) (l' : L K V)
+    (hs : tstep t g l c = some (g', l')) (h1 : l.pc ≠ .getChkClock) (h2 : l.pc ≠ .getCompute) : l'.pc ≠ .getTTLClock :=
+  fun h => (into_getTTLClock t g l c g' l' hs h).elim h1 h2
+
+/-- what a linearization point establishes about the call's result.  Either the step assigns the result, and it is
+(logically) the spec's answer on the ghost abstract state.  Or — `GetWithTTL k` whose double-checked `Compute` finds
+the abstract binding `i` of `k` with an expiration instant (`0 < i.e`) — no result is assigned yet: the spec's answer at
+this instant is `valTTL i.v (i.e - g.now) true`; the call keeps `i` (`loaded`) and goes on to `getTTLClock`, whose step
+reports value and flag of that answer and the lifetime `i.e - now'` against the clock `now' ≥ g.now` it reads then
+(`get_ttl_clock`, `getWithTTL_second_clock`). -/
+def LPRes (g : G K V) (op : COp K V) (l' : L K V) : Prop :=
+  (l'.pc ≠ .getTTLClock ∧ ∃ res, l'.result = some res ∧ logical res = (TTL.step g.abs (toSpec op)).2.1) ∨
+  (∃ k i, op = .getWithTTL k ∧ g.abs.live.get k = some i ∧ 0 < i.e ∧
+      (TTL.step g.abs (toSpec op)).2.1 = .valTTL i.v (i.e - g.now) true ∧
+      l'.pc = .getTTLClock ∧ l'.loaded = some i)
+
+/-- what a linearization point (other than `Set`'s `Store`) must establish: the result (`LPRes`), and the ghost
+abstract state advances by the spec step -/
 def LPOk (g : G K V) (op : COp K V) (g' : G K V) (l' : L K V) : Prop :=
-  ∃ res, l'.result = some res ∧ logical res = (TTL.step g.abs (toSpec op)).2.1 ∧
-    g'.abs = (TTL.step g.abs (toSpec op)).1
+  LPRes g op l' ∧ g'.abs = (TTL.step g.abs (toSpec op)).1
 
 theorem lp_rmw (t : Tid) (g : G K V) (l : L K V) (c : Choice K V) (g' : G K V) (l' : L K V) (op : COp K V)
     (hg : GI g) (hl : LI g.now l) (hpc : l.pc = .rmw) (ho : l.op = some op)
     (hs : tstep t g l c = some (g', l')) : LPOk g op g' l' := by
+  have hne : l'.pc ≠ .getTTLClock := not_into_getTTLClock t g l c g' l' hs (by rw [hpc]; decide) (by rw [hpc]; decide)
   obtain ⟨op', ho', hc⟩ := hl.cls .rmw (by rw [hpc]; rfl)
   have hop : op = op' := by rw [ho] at ho'; exact Option.some.inj ho'
   subst hop
   simp only [tstep, hpc, ho, Option.some.injEq, Prod.mk.injEq] at hs
   obtain ⟨rfl, rfl⟩ := hs
-  refine ⟨_, rfl, ?_, rfl⟩
+  refine ⟨Or.inl ⟨hne, _, rfl, ?_⟩, rfl⟩
   have := (step_sim (view g) g.abs hg (toSpec op)).2.1
   cases op <;> simp only [opCls, reduceCtorEq] at hc <;> exact this
 
 theorem lp_gdCompute (t : Tid) (g : G K V) (l : L K V) (c : Choice K V) (g' : G K V) (l' : L K V) (op : COp K V)
     (hg : GI g) (hl : LI g.now l) (hpc : l.pc = .gdCompute) (ho : l.op = some op)
     (hs : tstep t g l c = some (g', l')) : LPOk g op g' l' := by
+  have hne : l'.pc ≠ .getTTLClock := not_into_getTTLClock t g l c g' l' hs (by rw [hpc]; decide) (by rw [hpc]; decide)
   obtain ⟨op', ho', hc⟩ := hl.cls .gd (by rw [hpc]; rfl)
   have hop : op = op' := by rw [ho] at ho'; exact Option.some.inj ho'
   subst hop
@@ -635,18 +763,13 @@ theorem lp_gdCompute (t : Tid) (g : G K V) (l : L K V) (c : Choice K V) (g' : G 
     simp only [Option.some.injEq, Prod.mk.injEq] at hs
     obtain ⟨rfl, rfl⟩ := hs
     rcases opKey_gd l op k ho hc hk with rfl | rfl
-    · refine ⟨_, rfl, ?_, rfl⟩
+    · refine ⟨Or.inl ⟨hne, _, rfl, ?_⟩, rfl⟩
       simp only [toSpec, TTL.step, hg.get k, lget, view, expired_eq]
       cases hgk : g.items.get k with
       | none => rfl
       | some i => by_cases he : TTL.expired i.e g.now = true <;> simp [he, logical]
-    · exact ⟨_, rfl, rfl, rfl⟩
+    · exact ⟨Or.inl ⟨hne, _, rfl, rfl⟩, rfl⟩
   · cases hs
-
-theorem compute_congr {α : Type} [Inhabited α] (m : AMap K α) (k : K) (f f' : Option α → α × Bool)
-    (h : ∀ o, f o = f' o) : m.compute k f = m.compute k f' := by
-  have : f = f' := funext h
-  rw [this]
 
 theorem opKey_get (l : L K V) (op : COp K V) (k : K) (ho : l.op = some op) (hc : opCls op = .get) (hk : opKey l = some k) :
     op = .get k ∨ op = .getWithExpiration k ∨ op = .getWithTTL k := by
@@ -658,66 +781,69 @@ theorem lp_getCompute (t : Tid) (g : G K V) (l : L K V) (c : Choice K V) (g' : G
   obtain ⟨op', ho', hc⟩ := hl.cls .get (by rw [hpc]; rfl)
   have hop : op = op' := by rw [ho] at ho'; exact Option.some.inj ho'
   subst hop
-  simp only [tstep, hpc] at hs
-  split at hs
-  · rename_i k op1 hk ho1
-    have hop : op = op1 := by rw [ho] at ho1; exact Option.some.inj ho1
-    subst hop
-    rw [compute_congr (f' := getFn (view g)), getFn_spec] at hs
-    case h => intro o; cases o <;> rfl
-    simp only [Option.some.injEq, Prod.mk.injEq] at hs
-    obtain ⟨rfl, rfl⟩ := hs
-    have hab := hg.get k
-    have hnow := hg.now
-    simp only [lget, view] at hab hnow
-    simp only [view]
-    cases hgk : g.items.get k with
-    | none =>
-      rw [hgk] at hab
-      simp only at hab
-      rcases opKey_get l op k ho hc hk with rfl | rfl | rfl <;>
-        exact ⟨_, rfl, by simp [toSpec, TTL.step, hab, missResult, logical],
-          by simp [toSpec, TTL.step, hab]⟩
-    | some i =>
-      have hpos : 0 ≤ i.e := hg.wf.epos (k, i) (AMap.mem_of_get _ _ _ hgk)
-      rw [hgk] at hab
-      by_cases he : TTL.expired i.e g.now = true
-      · simp only [he, if_true] at hab ⊢
-        rcases opKey_get l op k ho hc hk with rfl | rfl | rfl <;>
-          exact ⟨_, rfl, by simp [toSpec, TTL.step, hab, missResult, logical],
-            by simp [toSpec, TTL.step, hab]⟩
-      · simp only [he, Bool.false_eq_true, if_false] at hab ⊢
+  obtain ⟨k, op1, hk, ho1, hg', hm⟩ := getCompute_step t g l c g' l' hpc hs
+  have hop : op = op1 := by rw [ho] at ho1; exact Option.some.inj ho1
+  subst hop
+  have hab := hg.get k
+  have hnow := hg.now
+  simp only [lget, view] at hab hnow
+  have habs : g'.abs = g.abs := by rw [hg']
+  have hspec : (TTL.step g.abs (toSpec op)).1 = g.abs := by
+    rcases opKey_get l op k ho hc hk with rfl | rfl | rfl <;> simp only [toSpec, TTL.step] <;> split <;> rfl
+  refine ⟨?_, by rw [habs, hspec]⟩
+  have hmiss : g.abs.live.get k = none → LPRes g op { l with pc := .ret, result := some (missResult op) } := by
+    intro hab
+    rcases opKey_get l op k ho hc hk with rfl | rfl | rfl <;>
+      exact Or.inl ⟨(fun h => nomatch h), _, rfl, by simp [toSpec, TTL.step, hab, missResult, logical]⟩
+  cases hgk : g.items.get k with
+  | none =>
+    rw [hgk] at hab hm
+    rw [hm.2]; exact hmiss hab
+  | some i =>
+    rw [hgk] at hab hm
+    by_cases he : TTL.expired i.e g.now = true
+    · simp only [he, if_true] at hab hm
+      rw [hm.2]; exact hmiss hab
+    · simp only [he, Bool.false_eq_true, if_false] at hab hm
+      rw [hm.2]
+      rcases afterHit_cases l op i g.now with ⟨hno, h⟩ | ⟨k', rfl, hpos, h⟩ <;> rw [h]
+      · left
         rcases opKey_get l op k ho hc hk with rfl | rfl | rfl
-        · exact ⟨_, rfl, by simp [toSpec, TTL.step, hab, hitResult, logical],
-            by simp [toSpec, TTL.step, hab]⟩
-        · refine ⟨_, rfl, ?_, by simp [toSpec, TTL.step, hab]⟩
-          simp only [toSpec, TTL.step, hab, hitResult, logical, if_true]
+        · exact ⟨(fun h => nomatch h), _, rfl, by simp [toSpec, TTL.step, hab, hitResult, logical]⟩
+        · refine ⟨(fun h => nomatch h), _, rfl, ?_⟩
+          simp only [toSpec, TTL.step, hab, hitResult, logical]
           by_cases h0 : i.e > 0
           · simp [h0]
-          · have : i.e = 0 := by omega
+          · have : i.e = 0 := by
+              have := hg.wf.epos (k, i) (AMap.mem_of_get _ _ _ hgk)
+              simp only at this; omega
             simp [this]
-        · exact ⟨_, rfl, by simp [toSpec, TTL.step, hab, hitResult, logical, hnow, NoExpiration_eq],
-            by simp [toSpec, TTL.step, hab]⟩
-  · cases hs
+        · have h0 : ¬ 0 < i.e := fun h0 => hno ⟨k, rfl, h0⟩
+          exact ⟨(fun h => nomatch h), _, rfl, by simp [toSpec, TTL.step, hab, hitResult, logical, h0, NoExpiration_eq]⟩
+      · right
+        have hkk : k' = k := by simpa [opKey, ho] using hk
+        subst hkk
+        exact ⟨k', i, rfl, hab, hpos, by simp [toSpec, TTL.step, hab, hpos, hnow], rfl, rfl⟩
 
 theorem lp_simple (t : Tid) (g : G K V) (l : L K V) (c : Choice K V) (g' : G K V) (l' : L K V) (op : COp K V)
     (hl : LI g.now l) (hpc : l.pc = .clClear ∨ l.pc = .sdStore ∨ l.pc = .scStore) (ho : l.op = some op)
     (hs : tstep t g l c = some (g', l')) : LPOk g op g' l' := by
-  rcases hpc with hpc | hpc | hpc
+  rcases hpc with hpc | hpc | hpc <;>
+    have hne : l'.pc ≠ .getTTLClock := not_into_getTTLClock t g l c g' l' hs (by rw [hpc]; decide) (by rw [hpc]; decide)
   · obtain ⟨op', ho', hc⟩ := hl.cls .clear (by rw [hpc]; rfl)
     have hop : op = op' := by rw [ho] at ho'; exact Option.some.inj ho'
     subst hop
     simp only [tstep, hpc, Option.some.injEq, Prod.mk.injEq] at hs
     obtain ⟨rfl, rfl⟩ := hs
     cases op <;> simp only [opCls, reduceCtorEq] at hc
-    exact ⟨_, rfl, rfl, rfl⟩
+    exact ⟨Or.inl ⟨hne, _, rfl, rfl⟩, rfl⟩
   · simp only [tstep, hpc, ho] at hs
     split at hs
     · rename_i d hd
       cases hd
       simp only [Option.some.injEq, Prod.mk.injEq] at hs
       obtain ⟨rfl, rfl⟩ := hs
-      exact ⟨_, rfl, rfl, rfl⟩
+      exact ⟨Or.inl ⟨hne, _, rfl, rfl⟩, rfl⟩
     · cases hs
   · simp only [tstep, hpc, ho] at hs
     split at hs
@@ -725,7 +851,7 @@ theorem lp_simple (t : Tid) (g : G K V) (l : L K V) (c : Choice K V) (g' : G K V
       cases hd
       simp only [Option.some.injEq, Prod.mk.injEq] at hs
       obtain ⟨rfl, rfl⟩ := hs
-      exact ⟨_, rfl, rfl, rfl⟩
+      exact ⟨Or.inl ⟨hne, _, rfl, rfl⟩, rfl⟩
     · cases hs
 
 /-- the abstract effect of `Set`'s `Store`: "store with the instant computed from the earlier clock reading `t0`" -/
@@ -760,35 +886,58 @@ theorem lp_setStore (t : Tid) (g : G K V) (l : L K V) (c : Choice K V) (g' : G K
 /-- **Linearization points return the spec's answer**: at every linearization-point pc, from a state satisfying the
 invariants, the assigned result is (logically) the result of the spec step of the call on the ghost abstract
 state, and the ghost abstract state advances by that spec step; for `Set`'s `Store` the abstract effect is
-`SetStoreSpec`. -/
+`SetStoreSpec`.  The one linearization point that does not assign the result is the double-checked `Compute` of a
+`GetWithTTL k` that finds the abstract binding `i` of `k` with an expiration instant: the spec's answer at that
+instant is `valTTL i.v (i.e - g.now) true`; the call keeps `i` and reports, at its `getTTLClock` step, the same
+value and flag and the lifetime `i.e - now'` for the clock `now' ≥ g.now` read at that later step
+(`get_ttl_clock`, `getWithTTL_second_clock`). -/
 theorem lp_result (t : Tid) (g : G K V) (l : L K V) (c : Choice K V) (g' : G K V) (l' : L K V) (op : COp K V)
     (hg : GI g) (hl : LI g.now l) (hlp : lpPc l.pc = true) (ho : l.op = some op)
     (hs : tstep t g l c = some (g', l')) :
-    ∃ res, l'.result = some res ∧ logical res = (TTL.step g.abs (toSpec op)).2.1 ∧
+    ((l'.pc ≠ .getTTLClock ∧ ∃ res, l'.result = some res ∧ logical res = (TTL.step g.abs (toSpec op)).2.1) ∨
+     (∃ k i, l.pc = .getCompute ∧ op = .getWithTTL k ∧ g.abs.live.get k = some i ∧ 0 < i.e ∧
+        (TTL.step g.abs (toSpec op)).2.1 = .valTTL i.v (i.e - g.now) true ∧
+        l'.pc = .getTTLClock ∧ l'.loaded = some i)) ∧
       (l.pc ≠ .setStore → g'.abs = (TTL.step g.abs (toSpec op)).1) ∧
       (l.pc = .setStore → SetStoreSpec g l op g') := by
   cases hpc : l.pc <;> rw [hpc] at hlp <;> simp only [lpPc, reduceCtorEq] at hlp
   case setStore =>
     obtain ⟨h1, h2, h3⟩ := lp_setStore t g l c g' l' op hl hpc ho hs
-    exact ⟨.unit, h1, h2.symm, fun h => absurd rfl h, fun _ => h3⟩
+    exact ⟨Or.inl ⟨not_into_getTTLClock t g l c g' l' hs (by rw [hpc]; decide) (by rw [hpc]; decide), .unit, h1, h2.symm⟩,
+      fun h => absurd rfl h, fun _ => h3⟩
   case rmw =>
-    obtain ⟨res, h1, h2, h3⟩ := lp_rmw t g l c g' l' op hg hl hpc ho hs
-    exact ⟨res, h1, h2, fun _ => h3, fun h => nomatch h⟩
+    obtain ⟨h1, h3⟩ := lp_rmw t g l c g' l' op hg hl hpc ho hs
+    exact ⟨h1.elim Or.inl (fun ⟨_, _, _, _, _, _, hp, _⟩ => absurd hp
+      (not_into_getTTLClock t g l c g' l' hs (by rw [hpc]; decide) (by rw [hpc]; decide))), fun _ => h3, fun h => nomatch h⟩
   case gdCompute =>
-    obtain ⟨res, h1, h2, h3⟩ := lp_gdCompute t g l c g' l' op hg hl hpc ho hs
-    exact ⟨res, h1, h2, fun _ => h3, fun h => nomatch h⟩
+    obtain ⟨h1, h3⟩ := lp_gdCompute t g l c g' l' op hg hl hpc ho hs
+    exact ⟨h1.elim Or.inl (fun ⟨_, _, _, _, _, _, hp, _⟩ => absurd hp
+      (not_into_getTTLClock t g l c g' l' hs (by rw [hpc]; decide) (by rw [hpc]; decide))), fun _ => h3, fun h => nomatch h⟩
   case getCompute =>
-    obtain ⟨res, h1, h2, h3⟩ := lp_getCompute t g l c g' l' op hg hl hpc ho hs
-    exact ⟨res, h1, h2, fun _ => h3, fun h => nomatch h⟩
+    obtain ⟨h1, h3⟩ := lp_getCompute t g l c g' l' op hg hl hpc ho hs
+    exact ⟨h1.imp id (fun ⟨k, i, h⟩ => ⟨k, i, rfl, h⟩), fun _ => h3, fun h => nomatch h⟩
   case clClear =>
-    obtain ⟨res, h1, h2, h3⟩ := lp_simple t g l c g' l' op hl (Or.inl hpc) ho hs
-    exact ⟨res, h1, h2, fun _ => h3, fun h => nomatch h⟩
+    obtain ⟨h1, h3⟩ := lp_simple t g l c g' l' op hl (Or.inl hpc) ho hs
+    exact ⟨h1.elim Or.inl (fun ⟨_, _, _, _, _, _, hp, _⟩ => absurd hp
+      (not_into_getTTLClock t g l c g' l' hs (by rw [hpc]; decide) (by rw [hpc]; decide))), fun _ => h3, fun h => nomatch h⟩
   case sdStore =>
-    obtain ⟨res, h1, h2, h3⟩ := lp_simple t g l c g' l' op hl (Or.inr (Or.inl hpc)) ho hs
-    exact ⟨res, h1, h2, fun _ => h3, fun h => nomatch h⟩
+    obtain ⟨h1, h3⟩ := lp_simple t g l c g' l' op hl (Or.inr (Or.inl hpc)) ho hs
+    exact ⟨h1.elim Or.inl (fun ⟨_, _, _, _, _, _, hp, _⟩ => absurd hp
+      (not_into_getTTLClock t g l c g' l' hs (by rw [hpc]; decide) (by rw [hpc]; decide))), fun _ => h3, fun h => nomatch h⟩
   case scStore =>
-    obtain ⟨res, h1, h2, h3⟩ := lp_simple t g l c g' l' op hl (Or.inr (Or.inr hpc)) ho hs
-    exact ⟨res, h1, h2, fun _ => h3, fun h => nomatch h⟩
+    obtain ⟨h1, h3⟩ := lp_simple t g l c g' l' op hl (Or.inr (Or.inr hpc)) ho hs
+    exact ⟨h1.elim Or.inl (fun ⟨_, _, _, _, _, _, hp, _⟩ => absurd hp
+      (not_into_getTTLClock t g l c g' l' hs (by rw [hpc]; decide) (by rw [hpc]; decide))), fun _ => h3, fun h => nomatch h⟩
+
+/-- a linearization point that leaves the result to a later step is `GetWithTTL`'s `Compute`, and nothing else:
+every other linearization point assigns the result in the step itself -/
+theorem lp_assigns_result (t : Tid) (g : G K V) (l : L K V) (c : Choice K V) (g' : G K V) (l' : L K V) (op : COp K V)
+    (hg : GI g) (hl : LI g.now l) (hlp : lpPc l.pc = true) (ho : l.op = some op)
+    (hs : tstep t g l c = some (g', l')) (hne : l'.pc ≠ .getTTLClock) :
+    ∃ res, l'.result = some res ∧ logical res = (TTL.step g.abs (toSpec op)).2.1 := by
+  rcases (lp_result t g l c g' l' op hg hl hlp ho hs).1 with h | ⟨_, _, _, _, _, _, _, h, _⟩
+  · exact h.2
+  · exact absurd h hne
 
 /-! ## Hindsight for the `Get` family -/
 
@@ -821,17 +970,20 @@ theorem get_load (t : Tid) (g : G K V) (l : L K V) (c : Choice K V) (g' : G K V)
       exact ⟨k, op, hk, ho, rfl, rfl, rfl, Or.inr ⟨i, hgk, rfl, rfl, hab⟩⟩
   · cases hs
 
-/-- **Hindsight**: when a `Get`-family call returns a hit on the loaded item `i` through the clock check, `i` was
-the abstract binding of the key at the instant of the call's `Load` (`l.absAtLoad = some i`, recorded at clock
-`l.nowAtLoad ≤ now`, an instant inside the call); the reported TTL (for `GetWithTTL`) is computed with the clock
-read at this step: the result is `hitResult op i g.now`.  Otherwise the call goes on to the double-checked
-`Compute` (a linearization point). -/
+/-- **Hindsight**: when a `Get`-family call passes the clock check with the loaded item `i` (`i` unexpired at the
+clock `g.now` read at this step), `i` was the abstract binding of the key at the instant of the call's `Load`
+(`l.absAtLoad = some i`, recorded at clock `l.nowAtLoad ≤ now`, an instant inside the call).  Then either the call
+returns here with `hitResult op i g.now` — every call of the family except `GetWithTTL` of an entry with an
+expiration instant — or (`GetWithTTL`, `0 < i.e`) it keeps `i` (`loaded`) and goes on to `getTTLClock`, where it reads
+the clock a second time to compute the remaining lifetime (`get_ttl_clock`).  Otherwise (`i` expired at `g.now`) the
+call goes on to the double-checked `Compute` (a linearization point). -/
 theorem get_hindsight (t : Tid) (g : G K V) (l : L K V) (c : Choice K V) (g' : G K V) (l' : L K V)
     (hl : LI g.now l) (hpc : l.pc = .getChkClock) (hs : tstep t g l c = some (g', l')) :
     g' = g ∧ ∃ i op, l.loaded = some i ∧ l.op = some op ∧ l.nowAtLoad ≤ g.now ∧
       (l.absAtLoad = if TTL.expired i.e l.nowAtLoad then none else some i) ∧
-      ((TTL.expired i.e g.now = false ∧ l'.pc = .ret ∧ l'.result = some (hitResult op i g.now) ∧
-          l.absAtLoad = some i) ∨
+      ((TTL.expired i.e g.now = false ∧ l.absAtLoad = some i ∧
+          (((¬ ∃ k, op = .getWithTTL k ∧ 0 < i.e) ∧ l'.pc = .ret ∧ l'.result = some (hitResult op i g.now)) ∨
+           (∃ k, op = .getWithTTL k ∧ 0 < i.e ∧ l'.pc = .getTTLClock ∧ l'.loaded = some i ∧ l'.result = l.result))) ∨
        (TTL.expired i.e g.now = true ∧ l'.pc = .getCompute ∧ l'.result = l.result)) := by
   obtain ⟨i, hi, hn, ha⟩ := hl.hind hpc
   simp only [tstep, hpc] at hs
@@ -847,13 +999,33 @@ theorem get_hindsight (t : Tid) (g : G K V) (l : L K V) (c : Choice K V) (g' : G
     · have he' : TTL.expired i'.e g.now = false := by simpa using he
       simp only [he', Bool.not_false, if_true, Option.some.injEq, Prod.mk.injEq] at hs
       obtain ⟨rfl, rfl⟩ := hs
-      refine ⟨rfl, i', op, hi, ho, hn, ha, Or.inl ⟨he', rfl, rfl, ?_⟩⟩
-      have : TTL.expired i'.e l.nowAtLoad = false := by
-        cases h : TTL.expired i'.e l.nowAtLoad
-        · rfl
-        · rw [expired_mono _ _ _ hn h] at he'; cases he'
-      rw [ha, this]; simp
+      have hab : l.absAtLoad = some i' := by
+        have : TTL.expired i'.e l.nowAtLoad = false := by
+          cases h : TTL.expired i'.e l.nowAtLoad
+          · rfl
+          · rw [expired_mono _ _ _ hn h] at he'; cases he'
+        rw [ha, this]; simp
+      refine ⟨rfl, i', op, hi, ho, hn, ha, Or.inl ⟨he', hab, ?_⟩⟩
+      rcases afterHit_cases l op i' g.now with ⟨hno, h⟩ | ⟨k, rfl, hpos, h⟩ <;> rw [h]
+      · exact Or.inl ⟨hno, rfl, rfl⟩
+      · exact Or.inr ⟨k, rfl, hpos, rfl, rfl, rfl⟩
   · cases hs
+
+/-- **`GetWithTTL`'s second clock read**: a thread at `getTTLClock` holds the item `i` its call found
+(`loaded = some i`, the `i` of `get_hindsight` resp. of the `GetWithTTL` clause of `lp_result`: locals are private
+and the thread has not moved since), `i` has an expiration instant and was unexpired at the clock value `t0` the call
+read when it found it (`nowAtLoad ≤ t0 ≤ now`).  The step touches nothing shared; it returns `i`'s value, `true`, and
+the lifetime `i.e - g.now` against the clock *of this step* (which may have advanced since `t0`: the reported
+lifetime is at most `i.e - t0`, and can be negative). -/
+theorem get_ttl_clock (t : Tid) (g : G K V) (l : L K V) (c : Choice K V) (g' : G K V) (l' : L K V)
+    (hl : LI g.now l) (hpc : l.pc = .getTTLClock) (hs : tstep t g l c = some (g', l')) :
+    g' = g ∧ ∃ i k t0, l.loaded = some i ∧ l.op = some (.getWithTTL k) ∧ 0 < i.e ∧
+      l.nowAtLoad ≤ t0 ∧ t0 ≤ g.now ∧ TTL.expired i.e t0 = false ∧
+      l'.pc = .ret ∧ l'.result = some (.valTTL i.v (i.e - g.now) true) ∧ i.e - g.now ≤ i.e - t0 := by
+  obtain ⟨i, k, t0, hi, ho, hpos, h1, h2, h3⟩ := hl.ttl hpc
+  simp only [tstep, hpc, hi, Option.some.injEq, Prod.mk.injEq] at hs
+  obtain ⟨rfl, rfl⟩ := hs
+  exact ⟨rfl, i, k, t0, hi, ho, hpos, h1, h2, h3, rfl, rfl, by omega⟩
 
 /-! ## Callbacks (C06) -/
 
@@ -955,7 +1127,7 @@ theorem erased_step (t : Tid) (g : G K V) (l : L K V) (c : Choice K V) (g' : G K
       all_goals
         ((repeat' split at hs) <;>
         simp only [Option.some.injEq, reduceCtorEq, Prod.mk.injEq] at hs <;>
-        obtain ⟨rfl, rfl⟩ := hs <;> exact Or.inl rfl)
+        obtain ⟨rfl, rfl⟩ := hs <;> first | exact Or.inl rfl | exact Or.inl (afterHit_erased ..))
 
 /-- **Every callback invocation reports an entry this thread removed earlier in the same call**: a step that
 appends `(cb, k, v)` to the ledger is a `gdFire`/`deFire` step, the callback is the one the call read, and
@@ -1077,6 +1249,9 @@ theorem no_step_blocks (t : Tid) (g : G K V) (l : L K V) (c : Choice K V) (hl : 
     obtain ⟨op, ho, hc⟩ := hl.cls .get (by rw [hpc]; rfl)
     obtain ⟨k, hk⟩ := cls_key l op ho (Or.inl hc)
     simp only [hk, ho]; rfl
+  case getTTLClock =>
+    obtain ⟨i, _, _, hi, _⟩ := hl.ttl hpc
+    simp only [hi]; rfl
   case rmw =>
     obtain ⟨op, ho, hc⟩ := hl.cls .rmw (by rw [hpc]; rfl)
     simp only [ho]; rfl
@@ -1143,6 +1318,145 @@ theorem reach_tstep (dflt : Int) (cb : Option Nat) (now : Int) (h0 : 0 ≤ now) 
         | none => rw [hst] at hab; cases hab
         | some a' => rw [hst] at hab; exact ih a' b hab
     rw [this sched _ s hsched, hs]
+
+/-! ## `GetWithTTL`, end to end: the item found at the hindsight / linearization point, the lifetime against a later clock -/
+
+theorem run_append (sc1 sc2 : List (Option Tid × Choice K V × Nat)) :
+    ∀ (a b : St K V), run a sc1 = some b → run a (sc1 ++ sc2) = run b sc2 := by
+  induction sc1 with
+  | nil => intro a b hab; simp only [run, Option.some.injEq] at hab; subst hab; rfl
+  | cons x rest ih =>
+    obtain ⟨w, c, δ⟩ := x
+    intro a b hab
+    simp only [run, List.cons_append] at hab ⊢
+    cases hst : step a w c δ with
+    | none => rw [hst] at hab; cases hab
+    | some a' => rw [hst] at hab; exact ih a' b hab
+
+theorem reach_run (dflt : Int) (cb : Option Nat) (now : Int) (s s' : St K V)
+    (sched : List (Option Tid × Choice K V × Nat)) (hr : Reach dflt cb now s) (h : run s sched = some s') :
+    Reach dflt cb now s' := by
+  obtain ⟨sc, hsc⟩ := hr
+  exact ⟨sc ++ sched, by rw [run_append sc sched _ s hsc, h]⟩
+
+/-- the clock never goes back -/
+theorem step_now_mono (s s' : St K V) (w : Option Tid) (c : Choice K V) (δ : Nat)
+    (h : step s w c δ = some s') : s.g.now ≤ s'.g.now := by
+  unfold step at h
+  cases w with
+  | none => simp only [Option.some.injEq] at h; subst h; simp only; omega
+  | some t =>
+    simp only at h
+    split at h
+    · cases h
+    · rename_i g' l' heq
+      simp only [Option.some.injEq] at h; subst h
+      simp only [tstep_now t s.g (s.l t) c g' l' heq, Int.le_refl]
+
+theorem run_now_mono (sched : List (Option Tid × Choice K V × Nat)) :
+    ∀ (s s' : St K V), run s sched = some s' → s.g.now ≤ s'.g.now := by
+  induction sched with
+  | nil => intro s s' h; simp only [run, Option.some.injEq] at h; subst h; exact Int.le_refl _
+  | cons x rest ih =>
+    obtain ⟨w, c, δ⟩ := x
+    intro s s' h
+    simp only [run] at h
+    split at h
+    · rename_i s1 hs1
+      exact Int.le_trans (step_now_mono s s1 w c δ hs1) (ih s1 s' h)
+    · cases h
+
+/-- a thread's locals are private: a run in which thread `t` takes no step leaves them alone -/
+theorem run_quiet (t : Tid) (sched : List (Option Tid × Choice K V × Nat)) :
+    ∀ (s s' : St K V), (∀ x ∈ sched, x.1 ≠ some t) → run s sched = some s' → s'.l t = s.l t := by
+  induction sched with
+  | nil => intro s s' _ h; simp only [run, Option.some.injEq] at h; subst h; rfl
+  | cons x rest ih =>
+    obtain ⟨w, c, δ⟩ := x
+    intro s s' hq h
+    simp only [run] at h
+    split at h
+    · rename_i s1 hs1
+      rw [ih s1 s' (fun y hy => hq y (List.mem_cons_of_mem _ hy)) h]
+      have hw : w ≠ some t := hq (w, c, δ) List.mem_cons_self
+      unfold step at hs1
+      cases w with
+      | none => simp only [Option.some.injEq] at hs1; subst hs1; rfl
+      | some u =>
+        simp only at hs1
+        split at hs1
+        · cases hs1
+        · simp only [Option.some.injEq] at hs1; subst hs1
+          have : t ≠ u := fun h => hw (by rw [h])
+          simp [this]
+    · cases h
+
+theorem lget_some (s : Cache.St K V) (k : K) (i : Item V) (h : lget s k = some i) :
+    s.items.get k = some i ∧ TTL.expired i.e s.now = false := by
+  unfold lget at h
+  split at h
+  · rename_i j hj
+    split at h
+    · cases h
+    · rename_i he
+      simp only [Option.some.injEq] at h; subst h
+      exact ⟨hj, by simpa using he⟩
+  · cases h
+
+/-- **`GetWithTTL` end to end.**  Take any run: a step of thread `t` from a reachable state `s` brings it to
+`getTTLClock` (state `s1`); then anything happens except steps of `t` (other threads, clock ticks: `sched`, reaching
+`s2`); then `t` steps (to `s3`).  Then the call is a `GetWithTTL k`, and there is an item `i` with an expiration
+instant, unexpired at the clock of `s`, such that
+* either the first step was the clock check of the hit path, and `i` is the abstract binding of `k` at the instant of
+  the call's lock-free `Load` (hindsight, `absAtLoad`; `nowAtLoad ≤` the clock of `s`; the step changes nothing shared),
+* or the first step was the double-checked `Compute` — a linearization point, the abstract state is unchanged by it —
+  and `i` is the abstract binding of `k` in `s`, the spec's answer there being `valTTL i.v (i.e - s.g.now) true`;
+and the last step changes nothing shared and returns `valTTL i.v (i.e - now') true` for the clock `now' = s2.g.now` read
+at that step, `now' ≥ s.g.now`: value and flag are the spec's at the linearization / hindsight point, the lifetime is
+that of the same binding measured against a later clock reading of the same call. -/
+theorem getWithTTL_second_clock (dflt : Int) (cb : Option Nat) (now : Int) (h0 : 0 ≤ now) (s s1 s2 s3 : St K V)
+    (t : Tid) (c c' : Choice K V) (δ δ' : Nat) (sched : List (Option Tid × Choice K V × Nat))
+    (hr : Reach dflt cb now s) (h1 : step s (some t) c δ = some s1) (hpc : (s1.l t).pc = .getTTLClock)
+    (hq : ∀ x ∈ sched, x.1 ≠ some t) (h2 : run s1 sched = some s2) (h3 : step s2 (some t) c' δ' = some s3) :
+    ∃ k i, (s.l t).op = some (.getWithTTL k) ∧ 0 < i.e ∧ TTL.expired i.e s.g.now = false ∧
+      (((s.l t).pc = .getChkClock ∧ (s.l t).loaded = some i ∧ (s.l t).absAtLoad = some i ∧
+          (s.l t).nowAtLoad ≤ s.g.now ∧ s1.g = s.g) ∨
+       ((s.l t).pc = .getCompute ∧ s.g.abs.live.get k = some i ∧ s1.g.abs = s.g.abs ∧
+          (TTL.step s.g.abs (.getWithTTL k)).2.1 = .valTTL i.v (i.e - s.g.now) true)) ∧
+      s.g.now ≤ s2.g.now ∧ s3.g = s2.g ∧ (s3.l t).pc = .ret ∧
+      (s3.l t).result = some (.valTTL i.v (i.e - s2.g.now) true) := by
+  obtain ⟨hg, hl, hst, _, hr1⟩ := reach_tstep dflt cb now h0 s s1 t c δ hr h1
+  have hr2 := reach_run dflt cb now s1 s2 sched hr1 h2
+  obtain ⟨_, hl2, hst2, _, _⟩ := reach_tstep dflt cb now h0 s2 s3 t c' δ' hr2 h3
+  have hloc := run_quiet t sched s1 s2 hq h2
+  have hmono : s.g.now ≤ s2.g.now := by
+    have := run_now_mono sched s1 s2 h2
+    rw [tstep_now t s.g (s.l t) c s1.g (s1.l t) hst] at this
+    exact this
+  have hpc2 : (s2.l t).pc = .getTTLClock := by rw [hloc]; exact hpc
+  obtain ⟨hg3, i', k', t0, hi', ho', _, _, _, _, hret, hres, _⟩ :=
+    get_ttl_clock t s2.g (s2.l t) c' s3.g (s3.l t) hl2 hpc2 hst2
+  rw [hloc] at hi'
+  rcases into_getTTLClock t s.g (s.l t) c s1.g (s1.l t) hst hpc with hp | hp
+  · obtain ⟨hgeq, i, op, hi, ho, hn, _, hh⟩ := get_hindsight t s.g (s.l t) c s1.g (s1.l t) hl hp hst
+    rcases hh with ⟨he, hab, ⟨_, hret', _⟩ | ⟨k, rfl, hpos, _, hld, _⟩⟩ | ⟨_, hcmp, _⟩
+    · rw [hpc] at hret'; cases hret'
+    · have : i' = i := by rw [hld] at hi'; exact (Option.some.inj hi').symm
+      subst this
+      exact ⟨k, i', ho, hpos, he, Or.inl ⟨hp, hi, hab, hn, hgeq⟩, hmono, hg3, hret, hres⟩
+    · rw [hpc] at hcmp; cases hcmp
+  · obtain ⟨op, ho, _⟩ := hl.cls .get (by rw [hp]; rfl)
+    obtain ⟨hres1, habs⟩ := lp_getCompute t s.g (s.l t) c s1.g (s1.l t) op hg hl hp ho hst
+    have hspec : (TTL.step s.g.abs (toSpec op)).1 = s.g.abs := by
+      obtain ⟨k, hk⟩ := cls_key (s.l t) op ho (Or.inl (by assumption))
+      rcases opKey_get (s.l t) op k ho (by assumption) hk with rfl | rfl | rfl <;>
+        simp only [toSpec, TTL.step] <;> split <;> rfl
+    rcases hres1 with ⟨hne, _⟩ | ⟨k, i, rfl, hab, hpos, hsp, _, hld⟩
+    · exact absurd hpc hne
+    · have : i' = i := by rw [hld] at hi'; exact (Option.some.inj hi').symm
+      subst this
+      have hlg := lget_some (view s.g) k i' (by rw [← hg.get k]; exact hab)
+      exact ⟨k, i', ho, hpos, hlg.2, Or.inr ⟨hp, hab, by rw [habs, hspec], hsp⟩, hmono, hg3, hret, hres⟩
 
 /-! ## Exactly once (C06): per call, what fired is exactly what was removed, once each, in order
 
@@ -1231,11 +1545,18 @@ theorem fi_self_getChkClock (t : Tid) (g : G K V) (l : L K V) (c : Choice K V) (
     (hl : LI g.now l) (hf : FI l) (hpc : l.pc = .getChkClock) (hs : tstep t g l c = some (g', l')) : FI l' := by
   obtain ⟨op0, ho0, hc0⟩ := hl.cls _ (by rw [hpc]; rfl)
   obtain ⟨f1, f2, f3, f4, f5, f6, f7⟩ := hf
-  simp only [tstep, hpc] at hs
+  simp only [tstep, hpc, afterHit] at hs
   fi_auto hs
 
 theorem fi_self_getCompute (t : Tid) (g : G K V) (l : L K V) (c : Choice K V) (g' : G K V) (l' : L K V)
     (hl : LI g.now l) (hf : FI l) (hpc : l.pc = .getCompute) (hs : tstep t g l c = some (g', l')) : FI l' := by
+  obtain ⟨op0, ho0, hc0⟩ := hl.cls _ (by rw [hpc]; rfl)
+  obtain ⟨f1, f2, f3, f4, f5, f6, f7⟩ := hf
+  simp only [tstep, hpc, afterHit] at hs
+  fi_auto hs
+
+theorem fi_self_getTTLClock (t : Tid) (g : G K V) (l : L K V) (c : Choice K V) (g' : G K V) (l' : L K V)
+    (hl : LI g.now l) (hf : FI l) (hpc : l.pc = .getTTLClock) (hs : tstep t g l c = some (g', l')) : FI l' := by
   obtain ⟨op0, ho0, hc0⟩ := hl.cls _ (by rw [hpc]; rfl)
   obtain ⟨f1, f2, f3, f4, f5, f6, f7⟩ := hf
   simp only [tstep, hpc] at hs
@@ -1372,6 +1693,7 @@ theorem fi_self (t : Tid) (g : G K V) (l : L K V) (c : Choice K V) (g' : G K V) 
   case getLoad => exact fi_self_getLoad t g l c g' l' hl hf hpc hs
   case getChkClock => exact fi_self_getChkClock t g l c g' l' hl hf hpc hs
   case getCompute => exact fi_self_getCompute t g l c g' l' hl hf hpc hs
+  case getTTLClock => exact fi_self_getTTLClock t g l c g' l' hl hf hpc hs
   case rmw => exact fi_self_rmw t g l c g' l' hl hf hpc hs
   case gdCompute => exact fi_self_gdCompute t g l c g' l' hl hf hpc hs
   case gdReadCb => exact fi_self_gdReadCb t g l c g' l' hl hf hpc hs
@@ -1546,7 +1868,7 @@ theorem ledger_fired_step (t : Tid) (g : G K V) (l : L K V) (c : Choice K V) (g'
   all_goals
     ((repeat' split at hs) <;>
     simp only [Option.some.injEq, reduceCtorEq, Prod.mk.injEq] at hs <;>
-    obtain ⟨rfl, rfl⟩ := hs <;> exact Or.inl ⟨rfl, Or.inl rfl⟩)
+    obtain ⟨rfl, rfl⟩ := hs <;> first | exact Or.inl ⟨rfl, Or.inl rfl⟩ | exact Or.inl ⟨rfl, Or.inl (afterHit_fired ..)⟩)
 
 theorem append_singleton_ne_self {α : Type} (xs : List α) (x : α) : xs ≠ xs ++ [x] := by
   intro h
